@@ -8,7 +8,11 @@ T2  C10 parse / rt            : the real textproto.ReadHeader / WriteHeader vs M
     C10 run                   : one message through the REAL queue under a history restart x retry vs Model/WireSpool.lean
     (C10 smtp)                : the same behind a REAL SMTP endpoint + pipeline; handed to the model as a `C10 run` line
 T3  monitor                   : every attempt compared byte for byte with what was accepted; every spool file grepped for
-                                the credentials of the authenticated connection
+                                the credentials of the authenticated connection; the other half - the target IS handed the
+                                message while recipients are pending (by the recording target's own answers, minus the
+                                recipients the queue logged a terminal failure for): a history's attempt step that does not
+                                take place, or a spool entry gone / incomplete while somebody is pending, is
+                                C10/pending-message-dropped; header/body files altered at rest C10/spool-content-changed
 """
 import os
 import re
@@ -70,11 +74,16 @@ def run(c):
         "envelopes: null sender, ASCII, IDN U-label and A-label, quoted local parts with spaces, quotes, @, controls, UTF-8 local parts, <>&, backslash, U+2028, 1-16 recipients, duplicates, OriginalRcpts nil / 0-11 entries, "
         "2% strings that are not valid UTF-8 (model predicts the U+FFFD replacement; outside the monitor's domain since the endpoint refuses them); SMTPUTF8 / REQUIRETLS / TLS-Required override in all 8 combinations, override set before or after Start; "
         "connection state absent / anonymous / authenticated (user name + password with JSON-escaped characters, AUTH= parameter); "
-        "histories of 1-10 attempts against a partial or atomic target (per recipient: delivered / temporary at body / temporary or permanent at RCPT / nobody accepted) with 0-8 restarts (also idle ones, also between Body and Commit); "
-        "(d) the same behind a real SMTP endpoint and pipeline over TCP (AUTH PLAIN, SMTPUTF8, REQUIRETLS, BODY=8BITMIME, TLS-Required: No header, dot-stuffed DATA, bodies above the 1 MiB spill threshold, addresses that are not valid UTF-8); "
+        "histories of 1-10 attempts against a partial or atomic target (per recipient: delivered / temporary at body / temporary or permanent at RCPT / nobody accepted) with 0-8 restarts (also idle ones, also between Body and Commit (`r` first), "
+        "also after a Commit answered by a queue that is shutting down, i.e. an ACCEPTED message restarted before its first attempt (`R` first)); "
+        "an edge grid on top: body sizes 0, 1, 2, 4095-4097, 32767-32769, 1 MiB-1 .. 1 MiB+1 x Memory/FileBuffer x header with no field at all (blob = CRLF) / generated x six history shapes "
+        "(R.attempts, R.r.attempts, all-deferred.r.attempts, atomic-deferred.partial-deferred.r.r.attempts, r.attempts, all-deferred.r at rest); "
+        "(d) the same behind a real SMTP endpoint and pipeline over TCP (AUTH PLAIN, SMTPUTF8, REQUIRETLS, BODY=8BITMIME, TLS-Required: No header, dot-stuffed DATA, bodies above the 1 MiB spill threshold, addresses that are not valid UTF-8; "
+        "10% with the queue shut down right before Commit and restarted before the first attempt; the same edge grid: empty body, a lone line end, 4 KiB / 32 KiB / 1 MiB boundaries, client header = CRLF only); "
         "distinct = distinct op lines",
         explanation="theorems over all headers, bodies, envelopes and histories; decide over the regenerated field table and code skeleton; "
-        "models tied to textproto and queue.go by differential runs; the monitor compares every attempt with what was accepted and greps the spool for the credentials",
+        "models tied to textproto and queue.go by differential runs; the monitor compares every attempt with what was accepted, greps the spool for the credentials, "
+        "and requires that a message with pending recipients is attempted when the history says so and is complete and unaltered in the spool whenever the queue is at rest",
         search=search,
     )
 
